@@ -27,6 +27,7 @@ import (
 	"encoding/json"
 	"fmt"
 	"io"
+	"net"
 	"net/http"
 	"net/http/httptest"
 	"runtime"
@@ -37,11 +38,17 @@ import (
 
 	"google.golang.org/genproto/googleapis/api/httpbody"
 	"google.golang.org/grpc"
+	"google.golang.org/grpc/credentials/insecure"
 	_ "google.golang.org/grpc/encoding/gzip"
 	"google.golang.org/grpc/metadata"
+	"google.golang.org/grpc/reflection"
+	rpb "google.golang.org/grpc/reflection/grpc_reflection_v1alpha"
 	"google.golang.org/protobuf/encoding/protojson"
 	"google.golang.org/protobuf/proto"
+	"google.golang.org/protobuf/reflect/protodesc"
 	"google.golang.org/protobuf/reflect/protoreflect"
+	"google.golang.org/protobuf/reflect/protoregistry"
+	"google.golang.org/protobuf/types/descriptorpb"
 	"google.golang.org/protobuf/types/dynamicpb"
 	"larking.io/api/testpb"
 	"larking.io/larking"
@@ -275,9 +282,15 @@ func c13Setup() *c13Env {
 			switch {
 			case strings.HasSuffix(method, "/GetBlob"):
 				t := text(req)
-				e.seen(t)
 				m := dynamicpb.NewMessage(out)
 				m.Set(out.Fields().ByName("content_type"), protoreflect.ValueOfString("application/octet-stream"))
+				if t == "ASSET" {
+					// an application serving a cached asset: the same slice in every reply (the reply
+					// message and its bytes belong to the handler, the server only reads them)
+					m.Set(out.Fields().ByName("data"), protoreflect.ValueOfBytes(c13Asset))
+					return m, nil
+				}
+				e.seen(t)
 				m.Set(out.Fields().ByName("data"), protoreflect.ValueOfBytes([]byte(t)))
 				return m, nil
 			case strings.HasSuffix(method, "/PutBlob"):
@@ -449,6 +462,78 @@ func c13RunM(o *out, input string) {
 	o.emit(input, obs)
 }
 
+// ---------- a proxied backend ----------
+
+type c13Proxy struct {
+	lb *loopback
+}
+
+var c13proxy *c13Proxy
+
+// c13ProxySetup: a grpc-go backend (c13p.Svc/Un echoes after a short, varying pause) behind a Mux of its
+// own through RegisterConn
+func c13ProxySetup() *c13Proxy {
+	c13proxyOnce.Do(func() {
+		str := descriptorpb.FieldDescriptorProto_TYPE_STRING
+		opt := descriptorpb.FieldDescriptorProto_LABEL_OPTIONAL
+		fdp := &descriptorpb.FileDescriptorProto{
+			Name: proto.String("verif/c13p.proto"), Package: proto.String("c13p"), Syntax: proto.String("proto3"),
+			MessageType: []*descriptorpb.DescriptorProto{{Name: proto.String("M"), Field: []*descriptorpb.FieldDescriptorProto{
+				{Name: proto.String("text"), JsonName: proto.String("text"), Number: proto.Int32(2), Type: &str, Label: &opt}}}},
+			Service: []*descriptorpb.ServiceDescriptorProto{{Name: proto.String("Svc"), Method: []*descriptorpb.MethodDescriptorProto{
+				{Name: proto.String("Un"), InputType: proto.String(".c13p.M"), OutputType: proto.String(".c13p.M")}}}},
+		}
+		fd, err := protodesc.NewFile(fdp, &protoregistry.Files{})
+		if err != nil {
+			panic(err)
+		}
+		files := &protoregistry.Files{}
+		if err := files.RegisterFile(fd); err != nil {
+			panic(err)
+		}
+		md := fd.Messages().ByName("M")
+		var n atomic.Int64
+		impl := &dynImpl{
+			Unary: func(ctx context.Context, method string, req proto.Message, out protoreflect.MessageDescriptor) (proto.Message, error) {
+				t := req.ProtoReflect().Get(md.Fields().ByName("text")).String()
+				time.Sleep(time.Duration(n.Add(1)%7) * 40 * time.Microsecond)
+				m := dynamicpb.NewMessage(out)
+				m.Set(out.Fields().ByName("text"), protoreflect.ValueOfString(t))
+				return m, nil
+			},
+		}
+		gs := grpc.NewServer()
+		gs.RegisterService(serviceDesc(fd.Services().ByName("Svc"), impl), nil)
+		rpb.RegisterServerReflectionServer(gs, reflection.NewServer(reflection.ServerOptions{Services: gs, DescriptorResolver: c10Resolver{files}}))
+		lis, err := net.Listen("tcp", "127.0.0.1:0")
+		if err != nil {
+			panic(err)
+		}
+		go gs.Serve(lis)
+		bc, err := grpc.Dial(lis.Addr().String(), grpc.WithTransportCredentials(insecure.NewCredentials()))
+		if err != nil {
+			panic(err)
+		}
+		mux, err := larking.NewMux()
+		if err != nil {
+			panic(err)
+		}
+		ctx, cancel := context.WithTimeout(context.Background(), 10*time.Second)
+		defer cancel()
+		if err := mux.RegisterConn(ctx, bc); err != nil {
+			panic("C13 RegisterConn: " + err.Error())
+		}
+		lb, err := newLoopback(mux)
+		if err != nil {
+			panic(err)
+		}
+		c13proxy = &c13Proxy{lb: lb}
+	})
+	return c13proxy
+}
+
+var c13proxyOnce sync.Once
+
 // ---------- C13B ----------
 
 // one in-process unary gRPC call with a gzip-compressed frame; returns (what the reply decodes to, grpc-status)
@@ -492,6 +577,9 @@ func c13InProcGrpc(e *c13Env, payload []byte) (string, string) {
 	return out.Text, st
 }
 
+var c13AssetText = "asset:" + strings.Repeat("0123456789abcdef", 24)
+var c13Asset = append(make([]byte, 0, 4096), c13AssetText...)
+
 func c13RunB(o *out, input string) {
 	f := strings.Fields(input)
 	variant := f[1]
@@ -501,6 +589,31 @@ func c13RunB(o *out, input string) {
 	obs := "panic"
 	func() {
 		defer func() { recover() }()
+		if variant == "asset" {
+			// a reply whose bytes the handler keeps, other traffic, the same reply again
+			get := func() string {
+				b, _, err := e.postInProc("/c13/blob", "application/json", "*/*", jsonOf("ASSET"))
+				if err != nil {
+					return "error:" + err.Error()
+				}
+				return string(b)
+			}
+			first := get()
+			for i := 0; i < 4; i++ {
+				t := c13Text(fmt.Sprintf("T%d", i), 300+i)
+				e.postInProc("/c13/echo", "application/json", "application/json", jsonOf(t))
+			}
+			second := get()
+			switch {
+			case first != c13AssetText:
+				obs = "lost:" + hx([]byte(first))[1:]
+			case second != c13AssetText || string(c13Asset) != c13AssetText:
+				obs = "handler-saw-other:" + hx([]byte(second))[1:]
+			default:
+				obs = "own"
+			}
+			return
+		}
 		a, b := c13Text("A", 900), c13Text("B", 37)
 		// A sets fields B leaves alone: bytes of A in front of B's would survive the merge
 		pa, _ := proto.Marshal(&testpb.Message{Text: a, UserId: "user-of-A", MessageId: "id-of-A"})
@@ -546,7 +659,7 @@ func c13RunB(o *out, input string) {
 // ---------- C13S ----------
 
 var c13Kinds = []string{"http-json", "http-json-gzip", "http-proto", "http-up-gzip", "http-up", "http-down",
-	"grpc", "grpc-gzip", "grpc-bidi", "grpc-bidi-gzip", "grpc-web", "blob-get", "blob-put", "grpc-cancel"}
+	"grpc", "grpc-gzip", "grpc-bidi", "grpc-bidi-gzip", "grpc-web", "blob-get", "blob-put", "grpc-cancel", "proxy-unary", "proxy-json"}
 
 func (e *c13Env) post(path, ct, accept string, body []byte, gz bool) ([]byte, int, error) {
 	if gz {
@@ -569,11 +682,24 @@ func (e *c13Env) post(path, ct, accept string, body []byte, gz bool) ([]byte, in
 	return b, rsp.StatusCode, err
 }
 
+func jsonOf(t string) []byte { b, _ := protojson.Marshal(&testpb.Message{Text: t}); return b }
+
+// the same through ServeHTTP on the calling goroutine
+func (e *c13Env) postInProc(path, ct, accept string, body []byte) ([]byte, int, error) {
+	req := httptest.NewRequest("POST", path, bytes.NewReader(body))
+	req.Header.Set("Content-Type", ct)
+	if accept != "" {
+		req.Header.Set("Accept", accept)
+	}
+	rec := httptest.NewRecorder()
+	e.mux.ServeHTTP(rec, req)
+	return rec.Body.Bytes(), rec.Code, nil
+}
+
 // one request of the given kind; returns "" when the echo is exact, else a description
 func (e *c13Env) one(kind, id string, r *rng) string {
 	msgd := testpb.File_larking_api_test_proto.Messages().ByName("Message")
 	t := c13Text(id, c13Size(r))
-	jsonOf := func(t string) []byte { b, _ := protojson.Marshal(&testpb.Message{Text: t}); return b }
 	textOf := func(b []byte) (string, bool) {
 		var m testpb.Message
 		if err := protojson.Unmarshal(b, &m); err != nil {
@@ -646,6 +772,31 @@ func (e *c13Env) one(kind, id string, r *rng) string {
 			return fmt.Sprintf("%s id=%s %d replies", kind, id, n)
 		}
 		return ""
+	case "proxy-unary", "proxy-json":
+		// the same echo through a backend registered with RegisterConn (its own mux)
+		pe := c13ProxySetup()
+		if kind == "proxy-json" {
+			req, _ := http.NewRequest("POST", pe.lb.url+"/c13p.Svc/Un", bytes.NewReader(jsonOf(t)))
+			req.Header.Set("Content-Type", "application/json")
+			rsp, err := e.client.Do(req)
+			if err != nil {
+				return fmt.Sprintf("%s id=%s err %v", kind, id, err)
+			}
+			b, _ := io.ReadAll(rsp.Body)
+			rsp.Body.Close()
+			if rsp.StatusCode != 200 {
+				return fmt.Sprintf("%s id=%s status %d", kind, id, rsp.StatusCode)
+			}
+			got, _ := textOf(b)
+			return diff(got, t)
+		}
+		in, out := &testpb.Message{Text: t}, &testpb.Message{}
+		ctx, cancel := context.WithTimeout(context.Background(), 20*time.Second)
+		defer cancel()
+		if err := pe.lb.conn.Invoke(ctx, "/c13p.Svc/Un", in, out); err != nil {
+			return fmt.Sprintf("%s id=%s err %v", kind, id, err)
+		}
+		return diff(out.Text, t)
 	case "grpc", "grpc-gzip":
 		in, out := dynamicpb.NewMessage(msgd), dynamicpb.NewMessage(msgd)
 		in.Set(msgd.Fields().ByName("text"), protoreflect.ValueOfString(t))
@@ -849,7 +1000,7 @@ func c13Gen(o *out, r *rng, tier string) {
 		o.count("mux-nested/" + c)
 		c13RunM(o, "C13M "+c)
 	}
-	for _, v := range []string{"ok", "crc", "cut", "tail"} {
+	for _, v := range []string{"ok", "crc", "cut", "tail", "asset"} {
 		o.count("grpc-gzip-sequence/" + v)
 		c13RunB(o, "C13B "+v)
 	}
